@@ -1679,3 +1679,93 @@ CREATE_COMPONENT = Contract(
         ('native-mode-hands-out-the-python-value', 'options.get("native", False) ==> result is value')],
     note='the model `create_component` used by the payload decoder contracts is this function')
 CONTRACTS = CONTRACTS + [CREATE_COMPONENT]
+
+
+# ---- CHOICE, indefinite length: tagged => alternatives up to the end-of-octets marker; untagged => re-dispatch this element -------
+def _chi_decode(ex, substrate, asn1Spec=None, tagSet=None, length=None, state=None, **options):
+    """decodeFun seen as the iterator the loop walks: underrun markers, then a value of one of the guide's types -- or the
+    end-of-octets marker when the caller allows it"""
+    allow = options.get('allowEoo') is True
+    if '**' in options and 'allowEoo' in options['**'].entries:
+        present, val = options['**'].entries['allowEoo']
+        allow = present is True and val is True
+    if ex.choose(ex.fresh('inner.raises', BoolSort()), 'inner-raises'):
+        raise _Raise(ExcV('PyAsn1Error'))
+    pre = [ExcV('SubstrateUnderrunError')] if ex.choose(ex.fresh('inner.underrun', BoolSort()), 'underrun-first') else []
+    if allow and ex.choose(ex.fresh('inner.eoo', BoolSort()), 'end-of-octets'):
+        return Tup(pre + [END_OF_OCTETS], 'list')
+    comp = Obj('Decoded', {'guide': asn1Spec, 'tagSetArg': tagSet, 'lengthArg': length, 'stateArg': state, 'allowEoo': allow,
+                           'effectiveTagSet': Obj('TagSet', {}, name='component.effectiveTagSet')}, name='component')
+    return Tup(pre + [comp], 'list')
+
+
+UNIQUE_MAP = Obj('TagMap', {}, name='tagMapUnique')
+
+
+def _chi_spec(ex, env):
+    def clone(ex2, self, *a, **kw):
+        def eq(ex3, me, other):
+            if isinstance(other, Obj) and other.name == 'tagSet':
+                return z3.Bool('choice.isTagged')
+            return ex3.identical(me, other)
+
+        def by_type(ex3, me, tagSet, value, *a2, **kw2):
+            if ex3.choose(ex3.fresh('choice.refused', BoolSort()), 'alternative-refused'):
+                raise _Raise(ExcV('PyAsn1Error'))
+            tagged = z3.Bool('choice.isTagged')
+            ok = isinstance(value, Obj) and isinstance(tagSet, Obj) and tagSet.uid == value.fields['effectiveTagSet'].uid and \
+                isinstance(value.fields.get('guide'), Obj) and value.fields['guide'].uid == UNIQUE_MAP.uid
+            inner = value.fields.get('tagSetArg') is None and value.fields.get('allowEoo') is True
+            same = isinstance(value.fields.get('tagSetArg'), Obj) and value.fields['tagSetArg'].name == 'tagSet' and \
+                isinstance(value.fields.get('stateArg'), Obj) and value.fields['stateArg'].uid == CH_STATE.uid
+            me.fields['allOk'] = And(me.fields['allOk'], z3.BoolVal(bool(ok)), If(tagged, z3.BoolVal(bool(inner)), z3.BoolVal(bool(same))))
+            me.fields['isValue'] = z3.BoolVal(True)
+            me.fields['assignments'] = me.fields['assignments'] + 1
+        return Obj('Choice', {'tagSet': Obj('TagSet', {}, {'__eq__': eq}, name='choice.tagSet'),
+                              'componentType': Obj('NamedTypes', {'tagMapUnique': UNIQUE_MAP}, name='componentType'),
+                              'allOk': z3.BoolVal(True), 'isValue': z3.BoolVal(False), 'assignments': IntVal(0), 'cloneOf': self},
+                   {'setComponentByType': by_type}, name='asn1Object')
+    return Obj('Choice', {}, {'clone': clone}, name='asn1Spec')
+
+
+class PChoiceState(PObjOneOf):
+    """nothing in the loop re-binds asn1Object; `component` is whatever the previous round decoded"""
+
+    def __init__(self):
+        PObjOneOf.__init__(self, classes=['Decoded'])
+
+    def make(self, ex, name):
+        return Obj('Decoded', {}, name='component-of-the-previous-round')
+
+    def admits(self, v):
+        return True
+
+
+CHOICE_DEC_INDEF = Contract(
+    id='ber.decoder::ChoicePayloadDecoder.indefLenValueDecoder', file=F, qual='ChoicePayloadDecoder.indefLenValueDecoder',
+    is_generator=True, properties=['C09', 'C10', 'C13'],
+    params=dict(self=PObj('ChoicePayloadDecoder'), substrate=PConst(Obj('Stream', {}, name='substrate')),
+                asn1Spec=PDerived(_chi_spec), tagSet=PConst(Obj('TagSet', {}, name='tagSet')), length=PInt(),
+                state=PConst(CH_STATE), decodeFun=PConst(FnV(_chi_decode, 'decodeFun')), substrateFun=PConst(None),
+                options=POptions()),
+    globals={'isTagged': z3.Bool('choice.isTagged'), 'tagMapUnique': UNIQUE_MAP, 'callerState': CH_STATE,
+             'eoo': {'endOfOctets': END_OF_OCTETS, '__name__': 'eoo'}},
+    calls={'decodeFun': _chi_decode, 'self._passAsn1Object': lambda ex, o, options: options},
+    loops={1: Loop(invariant=['not value_yielded()', 'asn1Object.assignments >= 0',
+                              'asn1Object.isValue == (asn1Object.assignments > 0)',
+                              # every alternative stored: selected by its own tags, decoded under the alternatives' map; tagged
+                              # CHOICE: the inner element (allowEoo), untagged: this very element (same tags, dispatcher state)
+                              'asn1Object.allOk'],
+                   havoc_fields=['asn1Object.assignments', 'asn1Object.isValue', 'asn1Object.allOk'],
+                   decl={'component': PChoiceState(), 'iterator': Obj('Stale', {}, name='iterator-of-the-previous-round'),
+                         'effectiveTagSet': Obj('Stale', {}, name='tags-of-the-previous-round')}),
+           2: Loop(unroll=True)},
+    yield_ensures=[
+        ('underruns-relayed-then-the-choice', '(not isinstance(y, SubstrateUnderrunError)) ==> (y.cloneOf is asn1Spec and y.isValue and y.allOk)')],
+    exit_ensures=[
+        # an explicit tag with nothing inside is refused, never a valueless CHOICE
+        ('a-value-or-an-error', 'last_yield().assignments >= 1')],
+    may_raise={'PyAsn1Error': True},
+    note='decodeFun, clone and setComponentByType are assumed models')
+CHOICE_DEC_INDEF.multi_value = True
+CONTRACTS = CONTRACTS + [CHOICE_DEC_INDEF]
